@@ -190,7 +190,10 @@ def make_track(kind: str = "video", timescale: Optional[int] = None,
         'explicit-mdat'    tfhd base_data_offset = absolute file position of the first payload byte and a
                            trun *without* data_offset field (clear tracks only: saio offsets are unsigned)
     payload_size         average sample size in bytes (sizes are pseudo-random in [½, 1½]·payload_size)
-    traf_order           'trun_first': tfhd [tfdt] trun saiz saio senc; 'senc_first': tfhd [tfdt] saiz saio senc trun
+    traf_order           'trun_first': tfhd [tfdt] trun saiz saio senc; 'senc_first': tfhd [tfdt] saiz saio senc trun;
+                         or (encrypted tracks) any comma separated permutation of trun,saiz,saio,senc with an
+                         optional `piff` (a stored PIFF uuid clone of the senc), e.g. 'trun,senc,saiz,saio'
+                         (senc in front of saiz/saio) or 'trun,senc,piff,saiz,saio' 
     sample_durations_in  'trun' per-sample, 'tfhd' default in tfhd (needs equal durations, else falls back
                          to 'trun' for that segment), 'trex' default only in trex (same fallback)
     trun_data_offset     write the data_offset field (False only makes sense with an explicit base at the mdat: not used)
@@ -330,10 +333,13 @@ def make_track(kind: str = "video", timescale: Optional[int] = None,
             senc_at = -1
             if encrypted:
                 saiz, saio, senc = enc_boxes(saio_offset)
-                if traf_order == "senc_first":
-                    parts += [saiz, saio, senc, trun_box(data_offset)]
-                else:
-                    parts += [trun_box(data_offset), saiz, saio, senc]
+                names = {"senc_first": "saiz,saio,senc,trun", "trun_first": "trun,saiz,saio,senc"}.get(
+                    traf_order, traf_order).split(",")
+                assert sorted(n for n in names if n != "piff") == ["saio", "saiz", "senc", "trun"], traf_order
+                # a stored PIFF sample-encryption uuid box: same payload as the senc box
+                piff = box("uuid", PIFF_UUID, senc[8:])
+                avail = {"saiz": saiz, "saio": saio, "senc": senc, "piff": piff, "trun": trun_box(data_offset)}
+                parts += [avail[n] for n in names]
                 idx = parts.index(senc)
                 senc_at = 8 + 16 + 8 + sum(len(p) for p in parts[:idx]) + 16   # moof hdr, mfhd, traf hdr, …, senc hdr+vf+count
             else:
@@ -432,7 +438,9 @@ def _selftest() -> int:
         dict(encrypted=True), dict(encrypted=True, iv_size=16, traf_order="senc_first", saio_version=1),
         dict(base="explicit"), dict(base="implicit", sample_durations_in="tfhd"),
         dict(base="explicit-mdat"), dict(base="absolute", encrypted=True, payload_size=600),
-        dict(base="absolute-lead", with_styp=True, with_sidx=True), dict(first_decode_time=2 ** 32 + 7, encrypted=True, with_sidx=True),
+        dict(base="absolute-lead", with_styp=True, with_sidx=True),
+        dict(encrypted=True, traf_order="trun,senc,saiz,saio"), dict(encrypted=True, traf_order="senc,piff,saio,saiz,trun"),
+        dict(first_decode_time=2 ** 32 + 7, encrypted=True, with_sidx=True),
     ]
     with appboot.Clock("2024-01-01T00:00:00Z"):
         for i, kw in enumerate(variants):
